@@ -10,6 +10,8 @@ import (
 	"runtime"
 	"time"
 
+	"github.com/rs/zerolog"
+
 	shs "github.com/shutter-network/rolling-shutter/rolling-shutter/keyperimpl/shutterservice"
 )
 
@@ -27,6 +29,10 @@ type Out struct {
 	Match  string  `json:"match"` // "true" | "false" | "error" | "panic" | "hang" | "crash" | "skip"
 	Alloc  int     `json:"alloc"`
 	Note   string  `json:"note"`
+	// FetchEvents cases
+	Err   string     `json:"err"`
+	Fired [][]bool   `json:"fired"` // definition x log: FetchEvents returned the pair
+	PM    [][]string `json:"pm"`    // definition x log: answer of a direct Match call
 }
 
 // Line is one trace line.
@@ -37,12 +43,14 @@ type Line struct {
 	Rnd  *Rnd   `json:"rnd,omitempty"`
 	Def  *DefA  `json:"def,omitempty"`
 	Log  *LogA  `json:"log,omitempty"`
+	Defs []DefA `json:"defs,omitempty"`
+	Logs []LogA `json:"logs,omitempty"`
 	In   B      `json:"in"`
 	Out  *Out   `json:"out,omitempty"`
 }
 
 func emptyOut() *Out {
-	return &Out{MEnc: "skip", Enc: B{}, UDef: []DefA{}, Filt: []FiltA{}, Match: "skip"}
+	return &Out{MEnc: "skip", Enc: B{}, UDef: []DefA{}, Filt: []FiltA{}, Match: "skip", Fired: [][]bool{}, PM: [][]string{}}
 }
 
 const allocCap = 1 << 30
@@ -116,6 +124,9 @@ func unmarshal(in []byte, o *Out) {
 // Execute concretises one case and runs the real code on it. This is the only place where
 // repository code is called.
 func Execute(n int, c *Case, r Rnd, seed int64) (*Line, error) {
+	if c.K == "fetch" {
+		return executeFetch(n, c, r)
+	}
 	d, err := ConcDef(c.Preds, r)
 	if err != nil {
 		return nil, err
@@ -185,6 +196,24 @@ func crashLine(n int, c *Case, r Rnd, seed int64, what string) *Line {
 	o := emptyOut()
 	o.Note = "worker " + what
 	line.Out = o
+	if c.K == "fetch" {
+		if defs, logs, err := concFetch(c, r); err == nil {
+			for _, d := range defs {
+				line.Defs = append(line.Defs, AbsDef(d))
+				o.Fired = append(o.Fired, make([]bool, len(logs)))
+				pm := make([]string, len(logs))
+				for j := range pm {
+					pm[j] = what
+				}
+				o.PM = append(o.PM, pm)
+			}
+			for _, l := range logs {
+				line.Logs = append(line.Logs, AbsLog(l))
+			}
+		}
+		o.Err = "worker " + what
+		return line
+	}
 	if d, err := ConcDef(c.Preds, r); err == nil {
 		da := AbsDef(d)
 		line.Def = &da
@@ -222,6 +251,7 @@ const workerInfraExit = 3
 // WorkerMain is the body of `vtrig __worker`: header line, then one request per line on stdin; one
 // trace line per request on stdout.
 func WorkerMain() int {
+	zerolog.SetGlobalLevel(zerolog.Disabled) // the repository code logs every skipped log at debug level
 	in := bufio.NewReaderSize(os.Stdin, 1<<20)
 	out := bufio.NewWriterSize(os.Stdout, 1<<20)
 	defer out.Flush()
